@@ -698,19 +698,38 @@ func (r *reporter) flush(mets []m3thrift.Metric) []m3thrift.Metric {
 func (r *reporter) convertTags(tags map[string]string) []m3thrift.MetricTag {
 	key := cache.TagMapKey(tags)
 
-	mtags, ok := r.tagCache.Get(key)
-	if !ok {
-		mtags = r.resourcePool.getMetricTagSlice()
-		for k, v := range tags {
-			mtags = append(mtags, m3thrift.MetricTag{
-				Name:  r.stringInterner.Intern(k),
-				Value: r.stringInterner.Intern(v),
-			})
-		}
-		mtags = r.tagCache.Set(key, mtags)
+	// The cache is keyed by a hash of the tags only, so an entry is used only
+	// if it holds exactly these tags: a different tag set with the same hash
+	// gets its own, uncached, slice.
+	if mtags, ok := r.tagCache.Get(key); ok && tagsMatch(mtags, tags) {
+		return mtags
 	}
 
+	mtags := r.resourcePool.getMetricTagSlice()
+	for k, v := range tags {
+		mtags = append(mtags, m3thrift.MetricTag{
+			Name:  r.stringInterner.Intern(k),
+			Value: r.stringInterner.Intern(v),
+		})
+	}
+
+	if cached := r.tagCache.Set(key, mtags); tagsMatch(cached, tags) {
+		return cached
+	}
 	return mtags
+}
+
+// tagsMatch reports whether mtags holds exactly the entries of tags.
+func tagsMatch(mtags []m3thrift.MetricTag, tags map[string]string) bool {
+	if len(mtags) != len(tags) {
+		return false
+	}
+	for _, t := range mtags {
+		if v, ok := tags[t.Name]; !ok || v != t.Value {
+			return false
+		}
+	}
+	return true
 }
 
 func (r *reporter) reportInternalMetrics() {
